@@ -63,6 +63,12 @@ Qed.
 Theorem C06_source_spread_is_the_advertised_spread : forall b m, 1 < b -> 0 < m -> card_rsd_src b m = card_rel_std_dev b m.
 Proof. exact card_rsd_src_ok. Qed.
 
+(* the coefficient of the j-th exponential increment and the register before flooring, as the source text of
+   SetSketcher::sketch writes them, are the formulas the register-law theorems are stated on *)
+Theorem C06_source_register_law_is_the_proved_law : forall a m j lnb x, 0 < a -> j < m -> 0 < lnb ->
+  ss_gap_src a m j = ss_gap a m j /\ ss_reg_real_src lnb x = ss_reg_real lnb x.
+Proof. intros a m j lnb x Ha Hj Hl. exact (conj (ss_gap_src_ok a m j Ha Hj) (ss_reg_real_src_ok lnb x Hl)). Qed.
+
 Print Assumptions C06_card_monotone.
 Print Assumptions C06_sequential_and_any_parallel_sum_agree.
 Print Assumptions C06_any_sum_tree_is_accurate.
@@ -74,3 +80,4 @@ Print Assumptions C06_register_threshold.
 Print Assumptions C06_register_antitone.
 Print Assumptions C06_source_estimators_are_the_proved_estimator.
 Print Assumptions C06_source_spread_is_the_advertised_spread.
+Print Assumptions C06_source_register_law_is_the_proved_law.
